@@ -1152,6 +1152,125 @@ def gen_src_reads(repo):
     return m
 
 
+def gen_bt_elem_sites(repo):
+    """T29: every place where DateTimeArray / TimeDeltaArray turn an element into a record or a record into an element: the chain of
+    method calls on the element (`x.to_tuple().to_cvi()`) at each store site — constructor, `a[i] = x`, the branches of slice
+    assignment, `insert` —, the decoding chain of `__getitem__` (`.item()`, `TimeValueTuple.from_cvi(*entry)`, `Cls.from_tuple(...)`),
+    and the record dtype handed to NumPy.  Interpreted by Model/BtElem.lean over the generated TimeDelta / DateTime / TimeValueTuple
+    functions; any other way of filling `self._array` is untranslatable."""
+    ast = T.ast
+    m = T.Module(f"{repo}/src/nitypes/bintime/_timedelta_array.py", "Gen.BtElemSites")
+    stores, loads, dtypes = [], [], []
+
+    def chain_of(e, where, mod):
+        """`x.m1().m2()` -> (x, [m1, m2])"""
+        ch = []
+        while isinstance(e, ast.Call) and isinstance(e.func, ast.Attribute) and not e.args and not e.keywords:
+            ch.append(e.func.attr)
+            e = e.func.value
+        if not isinstance(e, ast.Name) or not ch:
+            raise T.Untranslatable(f"{where}: `{ast.unparse(e)}` is not a chain of argument-less method calls on one element", e, mod.path)
+        return e.id, list(reversed(ch))
+
+    def encoding(e, where, mod, local):
+        """the element chain of an expression that yields record(s)"""
+        if isinstance(e, ast.Name) and e.id in local:
+            return local[e.id]
+        if isinstance(e, (ast.ListComp, ast.GeneratorExp)):
+            if len(e.generators) != 1 or e.generators[0].ifs or not isinstance(e.generators[0].target, ast.Name):
+                raise T.Untranslatable(f"{where}: comprehension `{ast.unparse(e)}`", e, mod.path)
+            var, ch = chain_of(e.elt, where, mod)
+            if var != e.generators[0].target.id:
+                raise T.Untranslatable(f"{where}: `{ast.unparse(e)}` does not encode its own loop variable", e, mod.path)
+            return ch
+        return chain_of(e, where, mod)[1]
+
+    for path, cls, elem, dt in (("_timedelta_array.py", "TimeDeltaArray", "TimeDelta", "CVITimeIntervalDType"),
+                                ("_datetime_array.py", "DateTimeArray", "DateTime", "CVIAbsoluteTimeDType")):
+        mod = T.Module(f"{repo}/src/nitypes/bintime/{path}", "Gen.BtElemSites")
+        c = mod.find_class(cls)
+        for f in c.body:
+            if not isinstance(f, ast.FunctionDef):
+                continue
+            where = f"{cls}.{f.name}"
+            local = {}
+            body_nodes = list(ast.walk(f))
+            # statements in program order
+            stmts = [n for n in body_nodes if isinstance(n, ast.stmt)]
+            stmts.sort(key=lambda n: (n.lineno, n.col_offset))
+            for st in stmts:
+                if isinstance(st, ast.Assign) and len(st.targets) == 1:
+                    tgt, val = st.targets[0], st.value
+                    ts = ast.unparse(tgt)
+                    if isinstance(tgt, ast.Name) and any(isinstance(x, ast.Attribute) and x.attr in ("to_cvi", "to_tuple") for x in ast.walk(val)):
+                        local[tgt.id] = encoding(val, where, mod, local)
+                        continue
+                    if isinstance(tgt, ast.Subscript) and ast.unparse(tgt.value) == "self._array":
+                        stores.append((cls, f.name, "setitem", encoding(val, where, mod, local)))
+                        continue
+                    if ts == "self._array":
+                        if not isinstance(val, ast.Call):
+                            raise T.Untranslatable(f"{where}: `{ast.unparse(st)}`", st, mod.path)
+                        fn = ast.unparse(val.func)
+                        if fn == "np.fromiter":
+                            kw = {k.arg: ast.unparse(k.value) for k in val.keywords}
+                            if len(val.args) != 1 or kw.get("dtype") != dt or set(kw) - {"dtype", "count"}:
+                                raise T.Untranslatable(f"{where}: `{ast.unparse(val)}` (expected one generator and dtype={dt})", val, mod.path)
+                            dtypes.append((cls, f.name, kw["dtype"]))
+                            stores.append((cls, f.name, "fromiter", encoding(val.args[0], where, mod, local)))
+                        elif fn == "np.insert":
+                            if len(val.args) != 3 or val.keywords or ast.unparse(val.args[0]) != "self._array":
+                                raise T.Untranslatable(f"{where}: `{ast.unparse(val)}`", val, mod.path)
+                            stores.append((cls, f.name, "insert", encoding(val.args[2], where, mod, local)))
+                        elif fn == "np.delete":
+                            if len(val.args) != 2 or val.keywords or ast.unparse(val.args[0]) != "self._array":
+                                raise T.Untranslatable(f"{where}: `{ast.unparse(val)}`", val, mod.path)
+                        elif fn == "np.append":
+                            a = [ast.unparse(x) for x in val.args]
+                            if len(a) != 2 or val.keywords or a[0] != "self._array" or not a[1].endswith("._array"):
+                                raise T.Untranslatable(f"{where}: `{ast.unparse(val)}` (only records of another array of the class may be appended)", val, mod.path)
+                        else:
+                            raise T.Untranslatable(f"{where}: `self._array` is built by `{ast.unparse(val)}`", val, mod.path)
+                        continue
+                elif isinstance(st, (ast.AugAssign, ast.AnnAssign)) and "self._array" in ast.unparse(st.target):
+                    raise T.Untranslatable(f"{where}: `{ast.unparse(st)}`", st, mod.path)
+            # decoding: every `.item()` on a record of the array
+            for i, st in enumerate(stmts):
+                if any(isinstance(x, ast.Call) and isinstance(x.func, ast.Attribute) and x.func.attr in ("item", "tolist")
+                       and "self._array" in ast.unparse(x.func.value) for x in ast.walk(st) if not isinstance(x, ast.stmt) or x is st) \
+                        and isinstance(st, ast.Assign):
+                    got = [ast.unparse(x) for x in stmts[i:i + 3]]
+                    idx = ast.unparse(st.value.func.value.slice) if isinstance(st.value, ast.Call) and isinstance(st.value.func, ast.Attribute) \
+                        and isinstance(st.value.func.value, ast.Subscript) else None
+                    want = [f"entry = self._array[{idx}].item()", "as_tuple = TimeValueTuple.from_cvi(*entry)", f"return {elem}.from_tuple(as_tuple)"]
+                    if got != want:
+                        raise T.Untranslatable(f"{where}: decoding is {got}, expected {want}", st, mod.path)
+                    loads.append((cls, f.name, ["item", "from_cvi", "from_tuple"]))
+        # nothing else may produce elements of the class from records
+        for n in ast.walk(c):
+            if isinstance(n, ast.Call) and ast.unparse(n.func) in (f"{elem}.from_tuple", f"{elem}.from_ticks", f"{elem}", "TimeValueTuple", "TimeValueTuple.from_cvi"):
+                fnm = next(f.name for f in c.body if isinstance(f, ast.FunctionDef) and any(x is n for x in ast.walk(f)))
+                if not any(l[0] == cls and l[1] == fnm for l in loads):
+                    raise T.Untranslatable(f"{cls}.{fnm}: `{ast.unparse(n)}` builds an element outside a recognised decoding site", n, mod.path)
+
+    def lst(xs):
+        return "[" + ", ".join(json.dumps(x) for x in xs) + "]"
+    m.out.append("/-- generated from DateTimeArray / TimeDeltaArray: every statement that writes records into `self._array` - (class, method, "
+                 "kind of store, the chain of method calls that turns one element into the stored value) -/")
+    m.out.append("@[pygen] def store_sites : List (String × String × String × List String) := [\n  "
+                 + ",\n  ".join(f"({json.dumps(a)}, {json.dumps(b)}, {json.dumps(k)}, {lst(ch)})" for a, b, k, ch in stores) + "]")
+    m.out.append("")
+    m.out.append("/-- generated: every place that turns a record back into an element - (class, method, decoding chain) -/")
+    m.out.append("@[pygen] def load_sites : List (String × String × List String) := [\n  "
+                 + ",\n  ".join(f"({json.dumps(a)}, {json.dumps(b)}, {lst(ch)})" for a, b, ch in loads) + "]")
+    m.out.append("")
+    m.out.append("/-- generated: the record dtype each constructor hands to NumPy -/")
+    m.out.append("@[pygen] def record_dtypes : List (String × String × String) := ["
+                 + ", ".join(f"({json.dumps(a)}, {json.dumps(b)}, {json.dumps(d)})" for a, b, d in dtypes) + "]")
+    m.out.append("")
+    return m
+
+
 MODULES = [
     # (output file, builder, dependencies by output name)
     ("TimeValueTuple", lambda repo, deps: gen_time_value_tuple(repo), []),
@@ -1185,6 +1304,7 @@ MODULES = [
     ("ComplexConvert", lambda repo, deps: gen_complex_convert(repo, deps["ComplexDtypes"]), ["ComplexDtypes"]),
     ("AsarrayShim", lambda repo, deps: gen_asarray_shim(repo), []),
     ("SrcReads", lambda repo, deps: gen_src_reads(repo), []),
+    ("BtElemSites", lambda repo, deps: gen_bt_elem_sites(repo), []),
 ]
 
 
